@@ -244,6 +244,67 @@ fn burn(cfg: &Cfg, grp: &str, case: u64, rng: &mut Rng, rep: &mut Report) {
     }
 }
 
+/// Ciphertexts with a CHOSEN noise polynomial. A size-2 ciphertext (c0, 0) is valid whatever canonical residues c0 holds, and
+/// its phase is c0 itself, so the noise the budget routine measures can be planted exactly: BFV noise t*c0 mod+- q = e for
+/// c0 = e * t^-1 mod q (residue-wise), BGV noise = phase = e. The planted magnitudes sit on the multi-word boundaries the
+/// norm computation (q - x for negative values, comparison, bit length) has to get right: 2^(64k) and neighbours, all-ones
+/// limbs, (q mod 2^128) + 1, q/2 and neighbours, single bits, both signs - values a sampled error never takes.
+fn synthetic_noise(cfg: &Cfg, grp: &str, case: u64, rng: &mut Rng, rep: &mut Report) {
+    let scheme = if rng.bool() { SchemeType::BFV } else { SchemeType::BGV };
+    let Some(spec) = program_spec(rng, &[2, 4, 8], Some(scheme)) else { rep.count("generator", "no_spec"); return; };
+    let Ok(kit) = Kit::new(&spec) else { rep.count("generator", "context_rejected"); return; };
+    let o = Obs { cfg, grp, case };
+    let m = Machine::new(&kit, true);
+    let (n, t) = (kit.n(), kit.t());
+    for level in 0..kit.levels.len() {
+        let qs = kit.level_qs(level);
+        let q = refm::product(&qs);
+        let half = q.shr(1);
+        let qb = q.bits();
+        for round in 0..6 {
+            // magnitude of the dominant coefficient
+            let (pname, mag): (&str, BigU) = match (round + rng.below(3) as usize) % 9 {
+                0 => { let k = 1 + rng.usize_below(((qb - 1) / 64).max(1)); ("2^(64k)-1", BigU::pow2(64 * k).sub(&BigU::one())) }
+                1 => { let k = 1 + rng.usize_below(((qb - 1) / 64).max(1)); ("2^(64k)", BigU::pow2(64 * k)) }
+                2 => { let k = 1 + rng.usize_below(((qb - 1) / 64).max(1)); ("2^(64k)+1", BigU::pow2(64 * k).add_u64(1)) }
+                3 => ("(q mod 2^128)+1", BigU::from_limbs(&q.to_limbs(2)).add_u64(1)),
+                4 => ("(q mod 2^64)+1", BigU::from_u64(q.low_u64()).add_u64(1)),
+                5 => ("floor(q/2)-small", half.sub(&BigU::from_u64(rng.below(3)))),
+                6 => { let b = rng.usize_below(qb - 1); ("single bit", BigU::pow2(b)) }
+                7 => { let k = 1 + rng.usize_below(((qb - 1) / 64).max(1)); ("all-ones middle limb", BigU::pow2(64 * k + 64).sub(&BigU::one()).sub(&BigU::from_u64(rng.below(1 << 20)))) }
+                _ => { let b = 1 + rng.usize_below(qb - 1); let mut v = BigU::zero(); for i in 0..b { if rng.bool() { v = v.add(&BigU::pow2(i)); } } ("random bits", v.add(&BigU::pow2(b - 1))) }
+            };
+            let mag = if mag.cmp_u(&half) == std::cmp::Ordering::Greater { half.clone() } else { mag };
+            if mag.is_zero() { continue; }
+            let negative = rng.bool();
+            let pos = rng.usize_below(n);
+            // residues of c0: coefficient `pos` carries +-mag, the others small noise of either sign
+            let mut ct = Ciphertext::new();
+            if lib(|| { ct.resize(&kit.ctx, kit.levels[level].parms_id(), 2); ct.set_is_ntt_form(false); }).is_err() { return; }
+            for (j, &qj) in qs.iter().enumerate() {
+                let tinv = if scheme == SchemeType::BFV { refm::invmod(t % qj, qj).unwrap_or(1) } else { 1 };
+                for i in 0..n {
+                    let (neg_i, r) = if i == pos { (negative, mag.rem_u64(qj)) } else { let s = rng.below(7); (s & 1 == 1, (s >> 1) % qj) };
+                    let e = if neg_i && r != 0 { qj - r } else { r };
+                    ct.poly_component_mut(0, j)[i] = refm::mulmod(e, tinv, qj);
+                }
+            }
+            let ct = if scheme == SchemeType::BGV { match lib(|| kit.eval.transform_to_ntt_new(&ct)) { Ok(c) => c, Err(_) => { rep.count("generator", "bgv_transform_refused"); continue; } } } else { ct };
+            rep.count("planted_noise", &format!("{}|{}|{}|words={}", kit.spec.scheme_name(), pname, if negative { "negative" } else { "positive" }, (qb + 63) / 64));
+            let trace = vec![format!("synthetic (c0, 0): coefficient {} carries noise {}{} ({}), level {}", pos, if negative { "-" } else { "+" }, mag.to_hex(), pname, level)];
+            let el = Elem { ct: ct.clone(), m: vec![0; n], e_an: f64::INFINITY, e_step: None, e_meas: None, level, origin: "synthetic".into() };
+            let before = observe(&o, rep, &m, &el, "planted noise", &trace);
+            // negation preserves the budget exactly (the norm is symmetric)
+            if let (Some((lb, _)), Ok(nc)) = (before, lib(|| kit.eval.negate_new(&ct))) {
+                let eln = Elem { ct: nc, ..el.clone() };
+                if let Some((lbn, _)) = observe(&o, rep, &m, &eln, "negated planted noise", &trace) {
+                    if lbn != lb { viol(&o, rep, "negate", &format!("{}|planted", kit.spec.scheme_name()), "value", format!("negation changed the reported budget {} -> {}", lb, lbn), &m, &trace); }
+                }
+            }
+        }
+    }
+}
+
 pub fn run(cfg: &Cfg, rep: &mut Report) -> PropMeta {
     run_cases(cfg, "programs", cfg.n(6000, 100000) as u64, rep, |i, rng, rep| programs(cfg, "programs", i, rng, rep, &[2, 4, 8, 16, 32]));
     run_cases(cfg, "programs_mid", cfg.n(60, 1500) as u64, rep, |i, rng, rep| programs(cfg, "programs_mid", i, rng, rep, &[64, 128, 256]));
@@ -251,6 +312,7 @@ pub fn run(cfg: &Cfg, rep: &mut Report) -> PropMeta {
     run_cases(cfg, "burn", cfg.n(3000, 60000) as u64, rep, |i, rng, rep| burn(cfg, "burn", i, rng, rep));
     run_cases(cfg, "fresh_large_t", cfg.n(1500, 30000) as u64, rep, |i, rng, rep| fresh_large_t(cfg, "fresh_large_t", i, rng, rep));
     run_cases(cfg, "sums", cfg.n(1500, 30000) as u64, rep, |i, rng, rep| sums(cfg, "sums", i, rng, rep));
+    run_cases(cfg, "synthetic_noise", cfg.n(1500, 30000) as u64, rep, |i, rng, rep| synthetic_noise(cfg, "synthetic_noise", i, rng, rep));
     PropMeta {
         id: "C07", level: "exploration",
         rule: "every pool element produced by random BFV/BGV operation programs (sizes 2..16, every level, budgets from full down to 0, 1..6 primes so the 1..6-word norm paths are hit) plus fresh encryptions (pk/sk) and k-fold sums k=2..64; distinct = distinct (scheme, prime count, size, level, exact budget) tuples",
